@@ -156,7 +156,8 @@ META.update({
 })
 CHECKS["C31"] = dict(parts=[part("client-auth-after-connect", "cl", "TestC31Client", 2000, 100_000),
                             part("cli-refuses-plaintext", "cli", "TestC31CLI", 1, 1, qshards=12, tshards=12, random=False, needs_tools=True)])
-CHECKS["C30"] = dict(parts=[part("predefined-config", "cli", "TestC30", 60, 2000, qshards=12, tshards=16, needs_tools=True)])
+CHECKS["C30"] = dict(parts=[part("predefined-config", "cli", "TestC30", 60, 2000, qshards=12, tshards=16, needs_tools=True),
+                            part("mapping-in-process", "pure", "TestC30Map", 5000, 300_000)])
 META.update({
     "C30": dict(
         text="Exploration: generated configurations (a YAML file with 0-3 client blocks from {'*', c1, c2} over IDs 1-4 and names that need YAML quoting, and/or 0-4 --predefined-topic options in both forms which overlap the file and each other, given by flags or by environment variables) are handed to the three real binaries built from the working tree. bisquitt is probed over loopback UDP with a PUBLISH on every predefined ID (topic seen by a harness broker, or session dropped); bisquitt-pub and bisquitt-sub run against a scripted UDP gateway and the way they address each name (predefined ID vs REGISTER/SUBSCRIBE by name) is read off the wire. Oracle: a model mapping = the file's, overridden entry by entry by the options in order, two-field options under '*'; every tool must agree with it and none may refuse a valid configuration.",
